@@ -91,6 +91,25 @@ def _quiet(*a, **k):
     return None
 
 
+_GEN_CACHE = {}
+
+
+def _is_generator(node):
+    """does this def contain a yield of its own (not one of a nested def or lambda)?"""
+    k = id(node)
+    if k not in _GEN_CACHE:
+        found = False
+        todo = list(getattr(node, 'body', []))
+        while todo and not found:
+            x = todo.pop()
+            if isinstance(x, (ast.Yield, ast.YieldFrom)):
+                found = True
+            elif not isinstance(x, (ast.FunctionDef, ast.AsyncFunctionDef, ast.Lambda, ast.ClassDef)):
+                todo.extend(ast.iter_child_nodes(x))
+        _GEN_CACHE[k] = found
+    return _GEN_CACHE[k]
+
+
 INTRINSICS = {
     'logging.info': _quiet, 'logging.error': _quiet, 'logging.warning': _quiet, 'logging.debug': _quiet, 'logging.basicConfig': _quiet,
     're.sub': _re.sub, 're.match': _re.match, 're.search': _re.search, 're.split': _re.split, 're.fullmatch': _re.fullmatch,
@@ -119,6 +138,28 @@ def _pure_library():
 
 
 INTRINSICS.update(_pure_library())
+
+# library modules whose functions only compute on their arguments (no files, clock, environment, randomness): a call into them is
+# performed on the abstract values as it stands
+_PURE_MODULES = ('collections', 'calendar', 'math', 'itertools', 'functools', 'operator', 'bisect', 'string', 'copy', 'textwrap', 'heapq', 'fractions',
+                 'statistics', 'enum', 'dataclasses')
+_NOT_PURE = {'calendar.setfirstweekday', 'calendar.firstweekday'}
+
+
+def _pure_object(dotted):
+    parts = dotted.split('.')
+    if parts[0] not in _PURE_MODULES or len(parts) < 2 or dotted in _NOT_PURE or any(p.startswith('_') for p in parts[1:]):
+        return None
+    import importlib
+    try:
+        obj = importlib.import_module(parts[0])
+    except ImportError:
+        return None
+    for p in parts[1:]:
+        obj = getattr(obj, p, None)
+        if obj is None:
+            return None
+    return obj
 
 _SAFE_TYPES = (str, list, dict, set, tuple, int, bool, frozenset, bytes, float, _datetime.datetime, _datetime.date, _datetime.timedelta, _datetime.timezone)
 _BUILTINS = {'len': len, 'range': range, 'min': min, 'max': max, 'sum': sum, 'any': any, 'all': all, 'enumerate': enumerate, 'zip': zip,
@@ -273,6 +314,19 @@ class PyEval:
                 raise AnalysisError('abstract evaluation: %s has no parameter %s' % (f, sorted(kwargs)))
             if isinstance(node, ast.Lambda):
                 return self.expr(node.body, env, f.mod, f.cls, depth + 1)
+            if _is_generator(node):
+                # a generator function: its body is run to the end and what it yields is handed out afterwards, in order (the
+                # interleaving with the consumer is not modelled; a generator that never ends exhausts the step budget)
+                if not hasattr(self, '_yields'):
+                    self._yields = []
+                self._yields.append([])
+                try:
+                    self.block(node.body, env, f.mod, f.cls, depth + 1)
+                except _Return:
+                    pass
+                finally:
+                    out = self._yields.pop()
+                return iter(out)
             try:
                 self.block(node.body, env, f.mod, f.cls, depth + 1)
             except _Return as r:
@@ -347,7 +401,27 @@ class PyEval:
             self.block(s.body if self.truth(ev(s.test)) else s.orelse, env, mod, cls, depth)
         elif isinstance(s, ast.For):
             broke = False
-            for item in list(self.iterate(ev(s.iter), self.L(mod, s))):
+            src = self.iterate(ev(s.iter), self.L(mod, s))
+
+            def items():
+                # a list is walked by position (items appended meanwhile are visited, as in the program); anything else -
+                # an unbounded iterator such as itertools.count() included - is consumed one item at a time
+                if isinstance(src, list):
+                    i = 0
+                    while i < len(src):
+                        yield src[i]
+                        i += 1
+                else:
+                    n_ = 0
+                    try:
+                        for x_ in src:
+                            n_ += 1
+                            if n_ > 2000000:
+                                raise AnalysisError('abstract evaluation: loop at %s does not terminate on the abstract input' % self.L(mod, s))
+                            yield x_
+                    except RuntimeError as x_:
+                        raise Raised('RuntimeError: %s' % x_, self.L(mod, s))
+            for item in items():
                 self.store(s.target, item, env, mod, cls, depth)
                 try:
                     self.block(s.body, env, mod, cls, depth)
@@ -572,7 +646,11 @@ class PyEval:
                 return o.attrs[name]
             ok, v = self.class_attr(o.mod, o.cls, name)
             if ok:
+                if isinstance(v, PFunc) and any(isinstance(d, ast.Name) and d.id == 'property' for d in getattr(v.node, 'decorator_list', [])):
+                    return self.apply(v.bind(o), [], {})          # @property: reading the attribute runs the getter
                 return v.bind(o) if isinstance(v, PFunc) else v
+            if name == '__class__':
+                return PClass(o.mod, o.mod.classes[o.cls])
             if name == '_replace':
                 def repl(**kw):
                     c = PObj(o.mod, o.cls, o.attrs)
@@ -584,11 +662,18 @@ class PyEval:
             ok, v = self.class_attr(o.mod, o.name, name)
             if ok:
                 return v
+            if name == '__new__':
+                return lambda cls_, *a, **k: PObj(cls_.mod, cls_.name)      # an instance whose __init__ has not run
+            if name == '__name__':
+                return o.name
             raise AnalysisError('abstract evaluation: %s.%s at %s' % (o.name, name, loc))
         if isinstance(o, PMod):
             dotted = o.dotted + '.' + name
             if dotted in self.intr:
                 return self.intr[dotted]
+            v = _pure_object(dotted)
+            if v is not None and not callable(v) and isinstance(v, _SAFE_TYPES):
+                return v                      # a constant of a side-effect-free library module (calendar.MONDAY, string.digits)
             return PMod(dotted)
         if isinstance(o, tuple) and len(o) == 2 and o[0] == 'module':
             return self.global_name(o[1], name, loc)
@@ -758,9 +843,23 @@ class PyEval:
                     return None
                 if f.dotted in ('sys.exit', 'exit'):
                     raise Raised('SystemExit', loc)
+                pure = _pure_object(f.dotted)
+                if pure is not None and callable(pure):
+                    self.steps += 1
+                    return self.apply(pure, args, kwargs, depth)
                 raise AnalysisError('abstract evaluation: call of %s at %s is outside the abstraction' % (f.dotted, loc))
             self.steps += 1
             return self.apply(f, args, kwargs, depth)
+        if isinstance(n, ast.Yield):
+            if not getattr(self, '_yields', None):
+                raise AnalysisError('abstract evaluation: yield outside a generator at %s' % loc)
+            self._yields[-1].append(ev(n.value) if n.value is not None else None)
+            return None
+        if isinstance(n, ast.YieldFrom):
+            if not getattr(self, '_yields', None):
+                raise AnalysisError('abstract evaluation: yield outside a generator at %s' % loc)
+            self._yields[-1].extend(self.iterate(ev(n.value), loc))
+            return None
         if isinstance(n, ast.Starred):
             raise AnalysisError('abstract evaluation: starred expression at %s' % loc)
         raise AnalysisError('abstract evaluation: expression kind %s at %s' % (type(n).__name__, loc))
